@@ -19,7 +19,8 @@ case "$kind" in
 dag)
   dagdir=$(cd "$REPO" && go list -m -f '{{.Dir}}' github.com/FollowTheProcess/collections)/dag
   python3 "$H/overlay/patch_dag.py" "$dagdir/dag.go" "$out/dag_controlled.go"
-  python3 "$H/overlay/patch_file.py" "$REPO/file/file.go" "$out/file_controlled.go"
+  if [ -n "${VERIF_NO_FILEPATCH:-}" ]; then cp "$REPO/file/file.go" "$out/file_controlled.go"; else
+    python3 "$H/overlay/patch_file.py" "$REPO/file/file.go" "$out/file_controlled.go"; fi
   cat > "$out/overlay-dag.json" <<EOF
 {"Replace": {${vs_entries} "$dagdir/dag.go": "$out/dag_controlled.go", "$REPO/file/file.go": "$out/file_controlled.go"}}
 EOF
